@@ -186,9 +186,11 @@ func c15Random(r *vh.Rand, explicit bool) c15In {
 			s := r.Range(1, n)
 			in.Ops = append(in.Ops, c15Op{K: "reset", S: s}, c15Op{K: "refreshed", S: s})
 			g.events = append(g.events, g.now)
-		case x < 67:
+		case x < 66:
 			in.Ops = append(in.Ops, c15Op{K: "reset", S: r.Range(1, n)})
-		case x < 70:
+		case x < 67+5:
+			in.Ops = append(in.Ops, c15Op{K: "phase2"})
+		case x < 75:
 			in.Ops = append(in.Ops, c15Op{K: "refreshed", S: r.Range(1, n)})
 			g.events = append(g.events, g.now)
 		default:
@@ -381,6 +383,27 @@ func c15Exec(in c15In) vh.Out {
 			t := now
 			snapst.LastRefreshTime = &t
 			Set(st, c15Name(op.S), &snapst)
+		case "phase2":
+			// auto-refresh phase 2: which of all the snaps (every one has an update) does snapsToRefresh go on with
+			task := st.NewTask("conditional-auto-refresh", "verif")
+			cands := map[string]*refreshCandidate{}
+			var all []int
+			for i := 1; i <= in.N; i++ {
+				cands[c15Name(i)] = &refreshCandidate{SnapSetup: SnapSetup{SideInfo: &snap.SideInfo{RealName: c15Name(i), Revision: snap.R(9)}}}
+				all = append(all, i)
+			}
+			task.Set("snaps", cands)
+			sel, err := snapsToRefresh(task)
+			if err != nil {
+				panic(err)
+			}
+			var ids []int
+			for _, c := range sel {
+				ids = append(ids, c15ID(c.InstanceName()))
+			}
+			sort.Ints(ids)
+			coqOp = fmt.Sprintf("(AutoFilter %s %s)", c15Ns(all), c15Ns(ids))
+			jsRes = fmt.Sprintf("selected %v", ids)
 		case "tick":
 			if op.D < 0 {
 				panic("negative tick")
